@@ -80,178 +80,183 @@ def run(ctx: Context) -> None:
                   f"{tab}: the fill value is the one recorded in the clip mask", ac, c, construct=f"{tab}: fill_value={norm_text(fv) if fv is not None else '?'}")
 
     # ------------------------------------------------------------------ R09.6
-    for tab in tables:
-        c = by_table.get(tab)
-        a, b = tab.split('_')
-        if c is None:
-            ctx.check('R09.6', False, f"{tab}: the table is re-indexed and carried over", ac, ac.node, construct=f"no update_connectivity call for {tab}_connectivity")
-            continue
-        tests = [(norm_text(st.test), inb) for st, inb in enclosing_ifs(ac, c)]
-        if tab == 'face_node':
-            ctx.check('R09.6', not tests, "face_node: the required table is always carried over", ac, c, construct=f"face_node guard: {tests or 'none'}")
-        else:
-            want_valid = f"topology.has_valid_{tab}_connectivity"
-            needs_edges = 'edge' in (a, b)
-            conj = set()
-            for t, inb in tests:
-                if inb:
-                    conj |= {x.strip() for x in t.split(' and ')}
-            want = {want_valid} | ({'has_edges'} if needs_edges else set())
-            ctx.check('R09.6', conj == want, f"{tab}: carried over exactly when it is supplied and valid" + (" and the mask has an edge table" if needs_edges else ''), ac, c,
-                      construct=f"{tab} guard: {sorted(conj)}")
-        # appended to the topology variables
-        st = stmt_of(ac, c)
-        ok = isinstance(st, ast.Expr) and isinstance(st.value, ast.Call) and isinstance(st.value.func, ast.Attribute) and st.value.func.attr == 'append' \
-            and norm_text(st.value.func.value) == 'topology_variables' and st.value.args and st.value.args[0] is c
-        ctx.check('R09.6', ok, f"{tab}: the re-indexed table joins the topology variables that are written", ac, c, construct=f"{tab}: topology_variables.append(update_connectivity(...))")
-    he = [n for n in walk_no_nested(ac.node) if isinstance(n, ast.Assign) and norm_text(n.targets[0]) == 'has_edges']
-    ctx.check('R09.6', bool(he) and norm_text(he[0].value) == "'new_edge_index' in clip_mask.data_vars", "has_edges means the clip mask carries an edge table", ac, he[0] if he else ac.node)
-    tv = [n for n in walk_no_nested(ac.node) if isinstance(n, (ast.Assign, ast.AnnAssign)) and norm_text(n.targets[0] if isinstance(n, ast.Assign) else n.target) == 'topology_variables']
-    ok = bool(tv) and norm_text(tv[0].value) == '[topology.mesh_variable]'
-    dsc = [c for c in calls_in(ac) if (callee(ctx, ac, c) or '').endswith('xarray.Dataset')]
-    ok2 = any(norm_text(kwarg(c, 'data_vars') or ast.Constant(None)) == '{variable.name: variable for variable in topology_variables}' for c in dsc)
-    ctx.check('R09.6', ok and ok2, "the mesh variable and all re-indexed tables are written as one topology dataset", ac, dsc[0] if dsc else ac.node,
-              construct='topology_variables = [mesh_variable] + tables -> xarray.Dataset(data_vars={name: variable})')
+    with ctx.section('R09.6'):
+        for tab in tables:
+            c = by_table.get(tab)
+            a, b = tab.split('_')
+            if c is None:
+                ctx.check('R09.6', False, f"{tab}: the table is re-indexed and carried over", ac, ac.node, construct=f"no update_connectivity call for {tab}_connectivity")
+                continue
+            tests = [(norm_text(st.test), inb) for st, inb in enclosing_ifs(ac, c)]
+            if tab == 'face_node':
+                ctx.check('R09.6', not tests, "face_node: the required table is always carried over", ac, c, construct=f"face_node guard: {tests or 'none'}")
+            else:
+                want_valid = f"topology.has_valid_{tab}_connectivity"
+                needs_edges = 'edge' in (a, b)
+                conj = set()
+                for t, inb in tests:
+                    if inb:
+                        conj |= {x.strip() for x in t.split(' and ')}
+                want = {want_valid} | ({'has_edges'} if needs_edges else set())
+                ctx.check('R09.6', conj == want, f"{tab}: carried over exactly when it is supplied and valid" + (" and the mask has an edge table" if needs_edges else ''), ac, c,
+                          construct=f"{tab} guard: {sorted(conj)}")
+            # appended to the topology variables
+            st = stmt_of(ac, c)
+            ok = isinstance(st, ast.Expr) and isinstance(st.value, ast.Call) and isinstance(st.value.func, ast.Attribute) and st.value.func.attr == 'append' \
+                and norm_text(st.value.func.value) == 'topology_variables' and st.value.args and st.value.args[0] is c
+            ctx.check('R09.6', ok, f"{tab}: the re-indexed table joins the topology variables that are written", ac, c, construct=f"{tab}: topology_variables.append(update_connectivity(...))")
+        he = [n for n in walk_no_nested(ac.node) if isinstance(n, ast.Assign) and norm_text(n.targets[0]) == 'has_edges']
+        ctx.check('R09.6', bool(he) and norm_text(he[0].value) == "'new_edge_index' in clip_mask.data_vars", "has_edges means the clip mask carries an edge table", ac, he[0] if he else ac.node)
+        tv = [n for n in walk_no_nested(ac.node) if isinstance(n, (ast.Assign, ast.AnnAssign)) and norm_text(n.targets[0] if isinstance(n, ast.Assign) else n.target) == 'topology_variables']
+        ok = bool(tv) and norm_text(tv[0].value) == '[topology.mesh_variable]'
+        dsc = [c for c in calls_in(ac) if (callee(ctx, ac, c) or '').endswith('xarray.Dataset')]
+        ok2 = any(norm_text(kwarg(c, 'data_vars') or ast.Constant(None)) == '{variable.name: variable for variable in topology_variables}' for c in dsc)
+        ctx.check('R09.6', ok and ok2, "the mesh variable and all re-indexed tables are written as one topology dataset", ac, dsc[0] if dsc else ac.node,
+                  construct='topology_variables = [mesh_variable] + tables -> xarray.Dataset(data_vars={name: variable})')
 
     # ------------------------------------------------------------------ R09.2 / R09.3 update_connectivity
-    uc = ctx.func(f"{UGRID}.update_connectivity")
-    uflow = ctx.flow(uc)
-    ucfg = ctx.cfg(uc)
-    col_p, fill_p, row_p, old_p, conn_p, prim_p = 'column_values', 'fill_value', 'row_indexes', 'old_array', 'connectivity', 'primary_dimension'
-    fills = [n for n in walk_no_nested(uc.node) if isinstance(n, ast.Assign) and isinstance(n.value, ast.Call)
-             and callee(ctx, uc, n.value) == 'numpy.ma.filled' and norm_text(n.targets[0]) == col_p]
-    ctx.need('R09.2', len(fills) == 1, "update_connectivity replaces masked new indexes by the fill value (numpy.ma.filled)", uc)
-    fl = fills[0]
-    ok = len(fl.value.args) == 2 and norm_text(fl.value.args[0]) == col_p and norm_text(fl.value.args[1]) == fill_p
-    ctx.check('R09.2', ok, "masked column values are filled with the (adjusted) fill value", uc, fl)
-    adds = [n for n in walk_no_nested(uc.node) if isinstance(n, ast.Assign) and norm_text(n.targets[0]) == col_p and isinstance(n.value, ast.BinOp)]
-    ok_add = (len(adds) == 1 and isinstance(adds[0].value.op, ast.Add) and norm_text(adds[0].value.left) == col_p
-              and uflow.reaches(adds[0].value.right, lambda m: isinstance(m, ast.Call) and callee(ctx, uc, m) == f"{UGRID}._get_start_index"
-                                and norm_text(m.args[0]) == conn_p))
-    ctx.check('R09.3', ok_add, "the index base is restored: new indexes are shifted by the table's own start_index", uc, adds[0] if adds else uc.node,
-              construct=f"shift: {norm_text(adds[0]) if adds else 'absent'}")
-    if adds:
-        g = [(norm_text(st.test), inb) for st, inb in enclosing_ifs(uc, adds[0])]
-        ctx.check('R09.3', ('start_index != 0', True) in g or not g, "the shift is applied whenever the base is not zero", uc, adds[0], construct=f"shift guard {g}")
-        order_ok = adds[0].lineno < fl.lineno and not any(x is adds[0] for x in ast.walk(fl))
-        # nothing modifies column_values between the fill and its use
-        later = [n for n in walk_no_nested(uc.node) if isinstance(n, (ast.Assign, ast.AugAssign)) and norm_text(getattr(n, 'targets', [getattr(n, 'target', None)])[0]) == col_p
-                 and n.lineno > fl.lineno]
-        ctx.check('R09.2', order_ok and not later, "the fill comes after the start_index shift and is the last change to the column values (a missing entry is exactly the fill value)", uc, fl,
-                  construct=f"order: shift line {adds[0].lineno}, fill line {fl.lineno}, later changes {[norm_text(x) for x in later]}")
-    fv_adjust = [n for n in ast.walk(uc.node) if isinstance(n, ast.Assign) and norm_text(n.targets[0]) == fill_p]
-    ok = all(n.lineno < fl.lineno for n in fv_adjust)
-    ctx.check('R09.2', ok, "the fill value is final before it is used to fill", uc, fv_adjust[0] if fv_adjust else fl,
-              construct=f"fill value adjustments at lines {[n.lineno for n in fv_adjust]} before the fill at line {fl.lineno}")
-    meq = [c for c in calls_in(uc) if callee(ctx, uc, c) == 'numpy.ma.masked_equal']
-    mk = [c for c in calls_in(uc) if callee(ctx, uc, c) == f"{UGRID}._masked_integer_data_array"]
-    ok = (len(meq) == 1 and norm_text(meq[0].args[1]) == fill_p and len(mk) == 1 and norm_text(kwarg(mk[0], 'fill_value') or ast.Constant(None)) == fill_p
-          and uflow.canon(meq[0].args[1]) == uflow.canon(fl.value.args[1]))
-    ctx.check('R09.2', ok, "entries equal to that same fill value are the missing entries of the output and its declared _FillValue", uc, meq[0] if meq else uc.node)
-    comps = [n for n in ast.walk(uc.node) if isinstance(n, ast.ListComp) and isinstance(n.elt, ast.ListComp)]
-    ctx.need('R09.3', len(comps) == 1, "update_connectivity rebuilds the table row by row", uc)
-    outer, inner = comps[0], comps[0].elt
-    ok_rows = norm_text(outer.generators[0].iter) == f"{old_p}[include_row]" and not outer.generators[0].ifs
-    inc = [n for n in walk_no_nested(uc.node) if isinstance(n, ast.Assign) and norm_text(n.targets[0]) == 'include_row']
-    ok_rows = ok_rows and bool(inc) and norm_text(inc[0].value) == f"~numpy.ma.getmask({row_p})"
-    ctx.check('R09.3', ok_rows, "exactly the rows of kept elements are written, in their original order", uc, outer,
-              construct=f"rows: {norm_text(outer.generators[0].iter)} with include_row = {norm_text(inc[0].value) if inc else '?'}")
-    e = inner.elt
-    ok_item = (isinstance(e, ast.IfExp) and norm_text(e.body) == f"{col_p}[item]" and norm_text(e.test) == 'item is not numpy.ma.masked'
-               and norm_text(e.orelse) == fill_p and norm_text(inner.generators[0].iter) == norm_text(outer.generators[0].target)
-               and not inner.generators[0].ifs)
-    ctx.check('R09.3', ok_item, "each present entry is replaced by its new index, each missing entry by the fill value, column order kept", uc, inner)
-    arrs = [c for c in calls_in(uc) if callee(ctx, uc, c) == 'numpy.array' and c.args and c.args[0] is comps[0]]
-    dt = [n for n in walk_no_nested(uc.node) if isinstance(n, ast.Assign) and norm_text(n.targets[0]) == 'dtype']
-    ok = (len(arrs) == 1 and norm_text(kwarg(arrs[0], 'dtype') or ast.Constant(None)) == 'dtype' and bool(dt)
-          and norm_text(dt[0].value) == f"{conn_p}.encoding.get('dtype', {conn_p}.dtype)")
-    ctx.check('R09.3', ok, "the integer type is the one the table is stored with", uc, dt[0] if dt else uc.node)
-    trs = [c for c in calls_in(uc) if callee(ctx, uc, c) == 'numpy.transpose']
-    ok = False
-    if len(trs) == 1:
-        g = [(norm_text(st.test), inb) for st, inb in enclosing_ifs(uc, trs[0])]
-        ok = (f"{conn_p}.dims[1] == {prim_p}", True) in g
-    ctx.check('R09.3', ok, "a table stored with its primary dimension second is transposed back", uc, trs[0] if trs else uc.node)
-    ok = len(mk) == 1 and {k.arg: norm_text(k.value) for k in mk[0].keywords} == {
-        'data': 'values', 'fill_value': fill_p, 'dims': f"{conn_p}.dims", 'name': f"{conn_p}.name", 'attrs': f"{conn_p}.attrs"}
-    ok = ok and all(uflow.resolve(r.value) is mk[0] for r in uc.returns())
-    ctx.check('R09.3', ok, "dims, name and attributes (including start_index) are those of the input table", uc, mk[0] if mk else uc.node)
-    mi = ctx.func(f"{UGRID}._masked_integer_data_array")
-    ok = any("data_array.encoding.update({'dtype': data.dtype, '_FillValue': fill_value})" == norm_text(s) for s in mi.body)
-    ctx.check('R09.3', ok, "the written variable is encoded with the integer dtype and that _FillValue", mi, mi.node)
+    with ctx.section('R09.2 / R09.3 update_connectivity'):
+        uc = ctx.func(f"{UGRID}.update_connectivity")
+        uflow = ctx.flow(uc)
+        ucfg = ctx.cfg(uc)
+        col_p, fill_p, row_p, old_p, conn_p, prim_p = 'column_values', 'fill_value', 'row_indexes', 'old_array', 'connectivity', 'primary_dimension'
+        fills = [n for n in walk_no_nested(uc.node) if isinstance(n, ast.Assign) and isinstance(n.value, ast.Call)
+                 and callee(ctx, uc, n.value) == 'numpy.ma.filled' and norm_text(n.targets[0]) == col_p]
+        ctx.need('R09.2', len(fills) == 1, "update_connectivity replaces masked new indexes by the fill value (numpy.ma.filled)", uc)
+        fl = fills[0]
+        ok = len(fl.value.args) == 2 and norm_text(fl.value.args[0]) == col_p and norm_text(fl.value.args[1]) == fill_p
+        ctx.check('R09.2', ok, "masked column values are filled with the (adjusted) fill value", uc, fl)
+        adds = [n for n in walk_no_nested(uc.node) if isinstance(n, ast.Assign) and norm_text(n.targets[0]) == col_p and isinstance(n.value, ast.BinOp)]
+        ok_add = (len(adds) == 1 and isinstance(adds[0].value.op, ast.Add) and norm_text(adds[0].value.left) == col_p
+                  and uflow.reaches(adds[0].value.right, lambda m: isinstance(m, ast.Call) and callee(ctx, uc, m) == f"{UGRID}._get_start_index"
+                                    and norm_text(m.args[0]) == conn_p))
+        ctx.check('R09.3', ok_add, "the index base is restored: new indexes are shifted by the table's own start_index", uc, adds[0] if adds else uc.node,
+                  construct=f"shift: {norm_text(adds[0]) if adds else 'absent'}")
+        if adds:
+            g = [(norm_text(st.test), inb) for st, inb in enclosing_ifs(uc, adds[0])]
+            ctx.check('R09.3', ('start_index != 0', True) in g or not g, "the shift is applied whenever the base is not zero", uc, adds[0], construct=f"shift guard {g}")
+            order_ok = adds[0].lineno < fl.lineno and not any(x is adds[0] for x in ast.walk(fl))
+            # nothing modifies column_values between the fill and its use
+            later = [n for n in walk_no_nested(uc.node) if isinstance(n, (ast.Assign, ast.AugAssign)) and norm_text(getattr(n, 'targets', [getattr(n, 'target', None)])[0]) == col_p
+                     and n.lineno > fl.lineno]
+            ctx.check('R09.2', order_ok and not later, "the fill comes after the start_index shift and is the last change to the column values (a missing entry is exactly the fill value)", uc, fl,
+                      construct=f"order: shift line {adds[0].lineno}, fill line {fl.lineno}, later changes {[norm_text(x) for x in later]}")
+        fv_adjust = [n for n in ast.walk(uc.node) if isinstance(n, ast.Assign) and norm_text(n.targets[0]) == fill_p]
+        ok = all(n.lineno < fl.lineno for n in fv_adjust)
+        ctx.check('R09.2', ok, "the fill value is final before it is used to fill", uc, fv_adjust[0] if fv_adjust else fl,
+                  construct=f"fill value adjustments at lines {[n.lineno for n in fv_adjust]} before the fill at line {fl.lineno}")
+        meq = [c for c in calls_in(uc) if callee(ctx, uc, c) == 'numpy.ma.masked_equal']
+        mk = [c for c in calls_in(uc) if callee(ctx, uc, c) == f"{UGRID}._masked_integer_data_array"]
+        ok = (len(meq) == 1 and norm_text(meq[0].args[1]) == fill_p and len(mk) == 1 and norm_text(kwarg(mk[0], 'fill_value') or ast.Constant(None)) == fill_p
+              and uflow.canon(meq[0].args[1]) == uflow.canon(fl.value.args[1]))
+        ctx.check('R09.2', ok, "entries equal to that same fill value are the missing entries of the output and its declared _FillValue", uc, meq[0] if meq else uc.node)
+        comps = [n for n in ast.walk(uc.node) if isinstance(n, ast.ListComp) and isinstance(n.elt, ast.ListComp)]
+        ctx.need('R09.3', len(comps) == 1, "update_connectivity rebuilds the table row by row", uc)
+        outer, inner = comps[0], comps[0].elt
+        ok_rows = norm_text(outer.generators[0].iter) == f"{old_p}[include_row]" and not outer.generators[0].ifs
+        inc = [n for n in walk_no_nested(uc.node) if isinstance(n, ast.Assign) and norm_text(n.targets[0]) == 'include_row']
+        ok_rows = ok_rows and bool(inc) and norm_text(inc[0].value) == f"~numpy.ma.getmask({row_p})"
+        ctx.check('R09.3', ok_rows, "exactly the rows of kept elements are written, in their original order", uc, outer,
+                  construct=f"rows: {norm_text(outer.generators[0].iter)} with include_row = {norm_text(inc[0].value) if inc else '?'}")
+        e = inner.elt
+        ok_item = (isinstance(e, ast.IfExp) and norm_text(e.body) == f"{col_p}[item]" and norm_text(e.test) == 'item is not numpy.ma.masked'
+                   and norm_text(e.orelse) == fill_p and norm_text(inner.generators[0].iter) == norm_text(outer.generators[0].target)
+                   and not inner.generators[0].ifs)
+        ctx.check('R09.3', ok_item, "each present entry is replaced by its new index, each missing entry by the fill value, column order kept", uc, inner)
+        arrs = [c for c in calls_in(uc) if callee(ctx, uc, c) == 'numpy.array' and c.args and c.args[0] is comps[0]]
+        dt = [n for n in walk_no_nested(uc.node) if isinstance(n, ast.Assign) and norm_text(n.targets[0]) == 'dtype']
+        ok = (len(arrs) == 1 and norm_text(kwarg(arrs[0], 'dtype') or ast.Constant(None)) == 'dtype' and bool(dt)
+              and norm_text(dt[0].value) == f"{conn_p}.encoding.get('dtype', {conn_p}.dtype)")
+        ctx.check('R09.3', ok, "the integer type is the one the table is stored with", uc, dt[0] if dt else uc.node)
+        trs = [c for c in calls_in(uc) if callee(ctx, uc, c) == 'numpy.transpose']
+        ok = False
+        if len(trs) == 1:
+            g = [(norm_text(st.test), inb) for st, inb in enclosing_ifs(uc, trs[0])]
+            ok = (f"{conn_p}.dims[1] == {prim_p}", True) in g
+        ctx.check('R09.3', ok, "a table stored with its primary dimension second is transposed back", uc, trs[0] if trs else uc.node)
+        ok = len(mk) == 1 and {k.arg: norm_text(k.value) for k in mk[0].keywords} == {
+            'data': 'values', 'fill_value': fill_p, 'dims': f"{conn_p}.dims", 'name': f"{conn_p}.name", 'attrs': f"{conn_p}.attrs"}
+        ok = ok and all(uflow.resolve(r.value) is mk[0] for r in uc.returns())
+        ctx.check('R09.3', ok, "dims, name and attributes (including start_index) are those of the input table", uc, mk[0] if mk else uc.node)
+        mi = ctx.func(f"{UGRID}._masked_integer_data_array")
+        ok = any("data_array.encoding.update({'dtype': data.dtype, '_FillValue': fill_value})" == norm_text(s) for s in mi.body)
+        ctx.check('R09.3', ok, "the written variable is encoded with the integer dtype and that _FillValue", mi, mi.node)
 
-    from . import c10
-    from .common import purity_obligations, share_obligations
-    share_obligations(ctx, c10, {'R10.5'}, 'R09.7')
-    purity_obligations(ctx, 'R09.7', uc, ['connectivity', 'old_array', 'row_indexes', 'column_values'], "update_connectivity")
-    purity_obligations(ctx, 'R09.7', ac, ['clip_mask'], "UGrid.apply_clip_mask")
+        from . import c10
+        from .common import purity_obligations, share_obligations
+        share_obligations(ctx, c10, {'R10.5'}, 'R09.7')
+        purity_obligations(ctx, 'R09.7', uc, ['connectivity', 'old_array', 'row_indexes', 'column_values'], "update_connectivity")
+        purity_obligations(ctx, 'R09.7', ac, ['clip_mask'], "UGrid.apply_clip_mask")
 
     # ------------------------------------------------------------------ R09.4
-    from ..handles import inventory_obligations
-    inventory_obligations(ctx, 'R09.4')
-    base = p.cls(BASE)
-    for fi in p.implementations(base, 'get_all_geometry_names'):
-        bad = [n for n in ast.walk(fi.node) if isinstance(n, ast.Compare) and isinstance(n.ops[0], (ast.In, ast.NotIn))
-               and isinstance(n.comparators[0], ast.Attribute) and n.comparators[0].attr in ('data_vars', 'coords')]
-        ctx.check('R09.4', not bad, "presence of a geometry variable is tested dataset-wide (variables), not only among data variables", fi,
-                  bad[0] if bad else fi.node, construct=f"{fi.short}: membership tests on partial namespaces: {[norm_text(b) for b in bad] or 'none'}")
-    for fi in p.implementations(base, 'get_all_geometry_names'):
-        coupled = []
-        for n in ast.walk(fi.node):
-            body = None
-            if isinstance(n, ast.Try):
-                body = n.body
-            elif isinstance(n, ast.With) and any('suppress' in norm_text(i.context_expr) for i in n.items):
-                body = n.body
-            if body is None:
-                continue
-            optional = [x for b in body for x in ast.walk(b) if isinstance(x, ast.Subscript) and isinstance(x.value, ast.Attribute) and x.value.attr == 'attrs'
-                        and isinstance(x.ctx, ast.Load)]
-            if len(optional) > 1:
-                coupled.append(n)
-        ctx.check('R09.4', not coupled, "each optional geometry variable is looked up on its own: a missing attribute of one does not hide another", fi,
-                  coupled[0] if coupled else fi.node, construct=f"{fi.short}: guarded blocks with several optional attribute lookups: {len(coupled)}")
-    sv = ctx.func(f"{BASE}.select_variables")
-    sflow = ctx.flow(sv)
-    keep = [n for n in walk_no_nested(sv.node) if isinstance(n, ast.Assign) and norm_text(n.targets[0]) == 'keep_vars']
-    ok = bool(keep) and isinstance(keep[0].value, ast.List) and [norm_text(e) for e in keep[0].value.elts] == [
-        '*variables', '*self.get_all_geometry_names()', '*self.depth_coordinates']
-    ok = ok and any(norm_text(c) == 'keep_vars.append(self.time_coordinate)' for c in calls_in(sv))
-    ctx.check('R09.4', ok, "kept = requested variables + geometry inventory + depth coordinates + time coordinate", sv, keep[0] if keep else sv.node)
-    drops = [c for c in method_calls(sv, 'drop_vars')]
-    ok = (len(drops) == 1 and norm_text(drops[0].func.value) == 'self.dataset' and norm_text(drops[0].args[0]) == 'all_vars - keep_var_names'
-          and any(isinstance(n, ast.Assign) and norm_text(n) == 'all_vars = set(self.dataset.variables.keys())' for n in sv.body)
-          and all(sflow.resolve(r.value) is drops[0] for r in sv.returns()))
-    ctx.check('R09.4', ok, "exactly the complement (over all variables) is dropped", sv, drops[0] if drops else sv.node)
+    with ctx.section('R09.4'):
+        from ..handles import inventory_obligations
+        inventory_obligations(ctx, 'R09.4')
+        base = p.cls(BASE)
+        for fi in p.implementations(base, 'get_all_geometry_names'):
+            bad = [n for n in ast.walk(fi.node) if isinstance(n, ast.Compare) and isinstance(n.ops[0], (ast.In, ast.NotIn))
+                   and isinstance(n.comparators[0], ast.Attribute) and n.comparators[0].attr in ('data_vars', 'coords')]
+            ctx.check('R09.4', not bad, "presence of a geometry variable is tested dataset-wide (variables), not only among data variables", fi,
+                      bad[0] if bad else fi.node, construct=f"{fi.short}: membership tests on partial namespaces: {[norm_text(b) for b in bad] or 'none'}")
+        for fi in p.implementations(base, 'get_all_geometry_names'):
+            coupled = []
+            for n in ast.walk(fi.node):
+                body = None
+                if isinstance(n, ast.Try):
+                    body = n.body
+                elif isinstance(n, ast.With) and any('suppress' in norm_text(i.context_expr) for i in n.items):
+                    body = n.body
+                if body is None:
+                    continue
+                optional = [x for b in body for x in ast.walk(b) if isinstance(x, ast.Subscript) and isinstance(x.value, ast.Attribute) and x.value.attr == 'attrs'
+                            and isinstance(x.ctx, ast.Load)]
+                if len(optional) > 1:
+                    coupled.append(n)
+            ctx.check('R09.4', not coupled, "each optional geometry variable is looked up on its own: a missing attribute of one does not hide another", fi,
+                      coupled[0] if coupled else fi.node, construct=f"{fi.short}: guarded blocks with several optional attribute lookups: {len(coupled)}")
+        sv = ctx.func(f"{BASE}.select_variables")
+        sflow = ctx.flow(sv)
+        keep = [n for n in walk_no_nested(sv.node) if isinstance(n, ast.Assign) and norm_text(n.targets[0]) == 'keep_vars']
+        ok = bool(keep) and isinstance(keep[0].value, ast.List) and [norm_text(e) for e in keep[0].value.elts] == [
+            '*variables', '*self.get_all_geometry_names()', '*self.depth_coordinates']
+        ok = ok and any(norm_text(c) == 'keep_vars.append(self.time_coordinate)' for c in calls_in(sv))
+        ctx.check('R09.4', ok, "kept = requested variables + geometry inventory + depth coordinates + time coordinate", sv, keep[0] if keep else sv.node)
+        drops = [c for c in method_calls(sv, 'drop_vars')]
+        ok = (len(drops) == 1 and norm_text(drops[0].func.value) == 'self.dataset' and norm_text(drops[0].args[0]) == 'all_vars - keep_var_names'
+              and any(isinstance(n, ast.Assign) and norm_text(n) == 'all_vars = set(self.dataset.variables.keys())' for n in sv.body)
+              and all(sflow.resolve(r.value) is drops[0] for r in sv.returns()))
+        ctx.check('R09.4', ok, "exactly the complement (over all variables) is dropped", sv, drops[0] if drops else sv.node)
 
     # ------------------------------------------------------------------ R09.5
-    mc = ctx.func(f"{GRID}.CFGrid.make_clip_mask")
-    dsc = [c for c in calls_in(mc) if (callee(ctx, mc, c) or '').endswith('xarray.Dataset')]
-    ok = False
-    if len(dsc) == 1:
-        co = kwarg(dsc[0], 'coords')
-        ok = isinstance(co, ast.Dict) and {norm_text(k): norm_text(v) for k, v in zip(co.keys, co.values)} == {
-            'topology.latitude_name': 'topology.latitude.copy()', 'topology.longitude_name': 'topology.longitude.copy()'}
-    ctx.check('R09.5', ok, "the CF clip mask carries copies of latitude and longitude under their own names", mc, dsc[0] if dsc else mc.node)
-    am = ctx.func(f"{ARAKAWA}.ArakawaC.make_clip_mask")
-    cm = [c for c in calls_in(am) if callee(ctx, am, c) == f"{ARAKAWA}.c_mask_from_centres"]
-    ok = len(cm) == 1 and len(cm[0].args) == 3 and norm_text(cm[0].args[2]) == 'self.dataset.coords' and all(ctx.flow(am).resolve(r.value) is cm[0] for r in am.returns())
-    ctx.check('R09.5', ok, "the Arakawa clip mask carries the dataset's coordinates", am, cm[0] if cm else am.node)
-    cf = ctx.func(f"{ARAKAWA}.c_mask_from_centres")
-    dsc = [c for c in calls_in(cf) if (callee(ctx, cf, c) or '').endswith('xarray.Dataset')]
-    ok = False
-    if len(dsc) == 1:
-        dv = kwarg(dsc[0], 'data_vars')
-        ok = isinstance(dv, ast.Dict) and {const_value(k, None) for k in dv.keys} == {'face_mask', 'back_mask', 'left_mask', 'node_mask'} \
-            and norm_text(kwarg(dsc[0], 'coords') or ast.Constant(None)) == cf.params[2]
-        for k, v in zip(dv.keys, dv.values) if isinstance(dv, ast.Dict) else []:
-            kind = const_value(k, '').replace('_mask', '')
-            ok = ok and isinstance(v, ast.Call) and norm_text(v.args[0]) == f"{kind}_mask" and norm_text(kwarg(v, 'dims') or ast.Constant(None)) == f"{cf.params[1]}[ArakawaCGridKind.{kind}]"
-    ctx.check('R09.5', ok, "one mask per Arakawa grid kind, each on that kind's own dimensions", cf, dsc[0] if dsc else cf.node)
-    for cq in (f"{GRID}.CFGrid.apply_clip_mask", f"{ARAKAWA}.ArakawaC.apply_clip_mask"):
-        fi = ctx.func(cq)
-        ok = all(norm_text(r.value) == 'masking.mask_grid_dataset(self.dataset, clip_mask, work_dir)' for r in fi.returns()) and fi.returns()
-        ctx.check('R09.5', bool(ok), "grid conventions apply the mask to their own dataset through masking.mask_grid_dataset", fi, fi.node)
+    with ctx.section('R09.5'):
+        mc = ctx.func(f"{GRID}.CFGrid.make_clip_mask")
+        dsc = [c for c in calls_in(mc) if (callee(ctx, mc, c) or '').endswith('xarray.Dataset')]
+        ok = False
+        if len(dsc) == 1:
+            co = kwarg(dsc[0], 'coords')
+            ok = isinstance(co, ast.Dict) and {norm_text(k): norm_text(v) for k, v in zip(co.keys, co.values)} == {
+                'topology.latitude_name': 'topology.latitude.copy()', 'topology.longitude_name': 'topology.longitude.copy()'}
+        ctx.check('R09.5', ok, "the CF clip mask carries copies of latitude and longitude under their own names", mc, dsc[0] if dsc else mc.node)
+        am = ctx.func(f"{ARAKAWA}.ArakawaC.make_clip_mask")
+        cm = [c for c in calls_in(am) if callee(ctx, am, c) == f"{ARAKAWA}.c_mask_from_centres"]
+        ok = len(cm) == 1 and len(cm[0].args) == 3 and norm_text(cm[0].args[2]) == 'self.dataset.coords' and all(ctx.flow(am).resolve(r.value) is cm[0] for r in am.returns())
+        ctx.check('R09.5', ok, "the Arakawa clip mask carries the dataset's coordinates", am, cm[0] if cm else am.node)
+        cf = ctx.func(f"{ARAKAWA}.c_mask_from_centres")
+        dsc = [c for c in calls_in(cf) if (callee(ctx, cf, c) or '').endswith('xarray.Dataset')]
+        ok = False
+        if len(dsc) == 1:
+            dv = kwarg(dsc[0], 'data_vars')
+            ok = isinstance(dv, ast.Dict) and {const_value(k, None) for k in dv.keys} == {'face_mask', 'back_mask', 'left_mask', 'node_mask'} \
+                and norm_text(kwarg(dsc[0], 'coords') or ast.Constant(None)) == cf.params[2]
+            for k, v in zip(dv.keys, dv.values) if isinstance(dv, ast.Dict) else []:
+                kind = const_value(k, '').replace('_mask', '')
+                ok = ok and isinstance(v, ast.Call) and norm_text(v.args[0]) == f"{kind}_mask" and norm_text(kwarg(v, 'dims') or ast.Constant(None)) == f"{cf.params[1]}[ArakawaCGridKind.{kind}]"
+        ctx.check('R09.5', ok, "one mask per Arakawa grid kind, each on that kind's own dimensions", cf, dsc[0] if dsc else cf.node)
+        for cq in (f"{GRID}.CFGrid.apply_clip_mask", f"{ARAKAWA}.ArakawaC.apply_clip_mask"):
+            fi = ctx.func(cq)
+            ok = all(norm_text(r.value) == 'masking.mask_grid_dataset(self.dataset, clip_mask, work_dir)' for r in fi.returns()) and fi.returns()
+            ctx.check('R09.5', bool(ok), "grid conventions apply the mask to their own dataset through masking.mask_grid_dataset", fi, fi.node)
+
 
 
 # --------------------------------------------------------------------------- checker self-test
